@@ -1161,7 +1161,8 @@ pub fn c05_record_set(tag: &str) -> Vec<Vec<u8>> {
 
 fn c05_write_input(dir: &str, records: &[Vec<u8>], container: &str) -> String {
     use crate::files::{serialise, Rec, Ser};
-    let recs: Vec<Rec> = records.iter().enumerate().map(|(i, r)| Rec { header: format!("r{} some description", i), bases: r.clone() }).collect();
+    // every seventh record has an empty header line (no id): the record count must not depend on ids
+    let recs: Vec<Rec> = records.iter().enumerate().map(|(i, r)| Rec { header: if i % 7 == 3 { String::new() } else { format!("r{} some description", i) }, bases: r.clone() }).collect();
     let (ser, suffix, gz) = match container {
         "fasta" => (Ser::FastaLine, ".fa", false),
         "fasta-w1" => (Ser::FastaWrap(1), ".fasta", false),
